@@ -13,6 +13,13 @@ PROPS_FILE = "Props/C10.v"
 GEN_FILES: list[str] = []
 MODEL_FILES = ["Model/C10_als.v", "Model/C10_funksvd.v"]
 ALLOWED_AXIOMS: list[str] = []   # every theorem of Props/C10.v is closed under the global context
+# coqchk lists the axioms of every library loaded with the closure of Props/C10.v: Model/C10_funksvd.v imports Coq's
+# primitive 63-bit integers and binary64 floats for the float instance that the case files run.  No theorem depends on
+# them (Print Assumptions: closed); they are standard-library primitives, named here so that nothing else slips through.
+COQCHK_LIBRARY_AXIOMS = [
+    r"Coq\.Numbers\.Cyclic\.Int63\.(PrimInt63|Uint63)\.[A-Za-z0-9_'.]+",
+    r"Coq\.Floats\.(PrimFloat|FloatAxioms|FloatOps|FloatLemmas)\.[A-Za-z0-9_'.]+",
+]
 CASE_HEADER = (
     "From Coq Require Import ZArith QArith PrimFloat.\n"
     "From LK Require Import Lib.QLib Model.C10_als Model.C10_funksvd.\n"
@@ -22,7 +29,8 @@ SHARD = 8
 TRUSTED = [
     "Coq 8.16.1 kernel + vm_compute (no native_compute); MathComp 1.15 + Algebra Tactics for Proofs/C10_normal_eq.v (closed under the global context)",
     "Coq's primitive binary64 floats and 63-bit integers (PrimFloat, Uint63) as the meaning of numba's float64 arithmetic in the FunkSVD loop "
-    "(no fused multiply-add, operations in source order); they appear only in the correspondence run, never in a theorem's assumptions",
+    "(no fused multiply-add, operations in source order); they appear only in the correspondence run, never in a theorem's assumptions "
+    "(coqchk of the thorough tier lists them as library axioms of the loaded closure: COQCHK_LIBRARY_AXIOMS)",
     "section hypothesis solve_exact: lenskit.math.solve.solve_cholesky (torch.linalg.cholesky_ex + cholesky_solve) returns a solution of A x = y; "
     "what it returned is checked on every case through the residual |Ax-y| <= 2^-40 (|A||x|+|y|) with A, y rebuilt by the model",
     "correspondence harness harness/props/c10.py + harness/c10_impl.py: wrapping of als_half_epoch / _train_bias_row_cholesky / _train_new_row / funksvd.Context "
@@ -137,7 +145,7 @@ def gen_case(rng, tier, malformed=False, wide=False):
 
 
 def gen_cases(rng, tier):
-    n = 150 if tier == "quick" else 900
+    n = 150 if tier == "quick" else 800
     return [gen_case(rng.fork(k), tier, malformed=(k % 10 == 9), wide=(k % 75 == 74)) for k in range(n)]
 
 
